@@ -22,6 +22,11 @@ func getSliceProperty[TPropertyType any](value *any, targetType reflect.Type) (*
 		sourceElem := sourceSlice.Index(i).Interface()
 		sourceElemValue := reflect.ValueOf(sourceElem)
 
+		// A null element yields the zero reflect.Value on which Type() panics
+		if !sourceElemValue.IsValid() {
+			return nil, fmt.Errorf("element at index %d is null and cannot be converted to type %s", i, targetElemType.String())
+		}
+
 		// Check if the source element can be converted to the target element type
 		if !sourceElemValue.Type().ConvertibleTo(targetElemType) {
 			return nil, fmt.Errorf("element %v at index %d cannot be converted to type %s", sourceElem, i, targetElemType.String())
